@@ -319,12 +319,14 @@ class MindsDBLexer(Lexer):
     def INTEGER(self, t):
         return t
 
-    @_(r"'(?:\\.|[^'])*(?:''(?:\\.|[^'])*)*'")
+    # a backslash is an ordinary character only where that can make a difference (before a quote or a line end):
+    #  with `\\.|[^']` every backslash had two readings, and a text without a closing quote took exponential time
+    @_(r"'(?:\\.|[^'\\]|\\(?=\\*'|\n))*(?:''(?:\\.|[^'\\]|\\(?=\\*'|\n))*)*'")
     def QUOTE_STRING(self, t):
         t.value = "'" + self.unescape_string(t.value[1:-1], quote="'") + "'"
         return t
 
-    @_(r'"(?:\\.|[^"])*"')
+    @_(r'"(?:\\.|[^"\\]|\\(?=\\*"|\n))*"')
     def DQUOTE_STRING(self, t):
         t.value = '"' + self.unescape_string(t.value[1:-1], quote='"') + '"'
         return t
